@@ -116,7 +116,7 @@ func (c Coin) Float64() (float64, error) {
 // MultCoin multiplies Coin c by b, returning an error if the values overflow
 func MultCoin(c, b Coin) (Coin, error) {
 	a := c * b
-	if a != 0 && a/c != b {
+	if c != 0 && a/c != b {
 		return 0, ErrUint64MultOverflow
 	}
 	return a, nil
